@@ -16,9 +16,9 @@ git apply "$SRC/patch.diff" || { echo "SEED $ID: patch does not apply"; exit 1; 
 go build ./... || { echo "SEED $ID: does not compile"; exit 1; }
 if go test -count=1 ./... > /tmp/sw_$ID.suite.log 2>&1; then SUITE=pass; else SUITE=fail; fi
 cp "$SRC/zz_seed_demo_test.go" "$PKG/zz_seed_demo_test.go"
-if (cd "$PKG" && go test -count=1 -run "$RUN" . > /tmp/sw_$ID.with.log 2>&1); then WITH=pass; else WITH=fail; fi
+if (cd "$PKG" && go test ${SEED_GOTEST_FLAGS:-} -count=1 -run "$RUN" . > /tmp/sw_$ID.with.log 2>&1); then WITH=pass; else WITH=fail; fi
 git checkout -q -- . 
-if (cd "$PKG" && go test -count=1 -run "$RUN" . > /tmp/sw_$ID.without.log 2>&1); then WITHOUT=pass; else WITHOUT=fail; fi
+if (cd "$PKG" && go test ${SEED_GOTEST_FLAGS:-} -count=1 -run "$RUN" . > /tmp/sw_$ID.without.log 2>&1); then WITHOUT=pass; else WITHOUT=fail; fi
 echo "SEED $ID: suite_with_change=$SUITE demo_with_change=$WITH demo_without_change=$WITHOUT"
 if [ "$SUITE" = pass ] && [ "$WITH" = fail ] && [ "$WITHOUT" = pass ]; then
   mkdir -p /verif/seeded/$ID
